@@ -295,7 +295,11 @@ Theorem C01_dir_refines_map :
               e_lfn ne = (if is_dot_name dst then [] else utf16_encode dst) /\ e_lfn_ok ne = true /\
               e_sfn ne = e_sfn e /\
               e_attr ne = e_attr e mod 64 /\ e_size ne = e_size e /\ e_cluster ne = e_cluster e /\
-              forall key, dir_map es' key = if list_eqb (e_sfn e) key then Some ne else dir_map es key)))).
+              forall key, dir_map es' key = if list_eqb (e_sfn e) key then Some ne else dir_map es key) /\
+           (* ... and then no OTHER listed entry matches the new spelling (the scan added by 7e5011a: D27) *)
+           (has_exact_name ev dst = false ->
+            forall l other, dir_entries oem ss = Ok l -> In other l -> Lfn.ev_end other <> Lfn.ev_end ev ->
+              matches upper oem dst other = false)))).
 Proof. exact dir_refines_map. Qed.
 Theorem C01_remove_entry_insane_refuted :
   exists ss name ss' es ls,
@@ -508,8 +512,8 @@ Proof. exact vol_remove_failed_unchanged. Qed.
    node of the source entry and gained exactly one node (first fit; all other nodes exactly as before, same relative
    order): the SAME cluster chain and the SAME content - FAT and data area are untouched and the new entry carries the
    source's first cluster and size -, the source's attributes (bits 6-7 dropped), the new long name; its short name is a
-   fresh legal alias, or the source's own when only the spelling changes (D22); no issue; labels, geometry, status byte
-   as before.  Any other outcome leaves every byte as it was (in particular the source: D20). *)
+   fresh legal alias, or the source's own when only the spelling changes (D22) - and then no other listed entry matches
+   the new spelling (D27, 7e5011a) -; no issue; labels, geometry, status byte as before.  Any other outcome leaves every byte as it was (in particular the source: D20). *)
 Theorem C01_vol_rename_decodes : forall upper oem im src dst im',
   fixed_root_geom (parse_geom im) -> v_root_issues (abs im) = [] ->
   Forall attrs_sane (root_region_slots (parse_geom im) im) ->
@@ -533,7 +537,9 @@ Theorem C01_vol_rename_decodes : forall upper oem im src dst im',
                     ~ In a (map e_sfn (map node_entry (v_root (abs im))))) \/
          (exists dv, check_for_existence upper oem (root_region_slots (parse_geom im) im) dst None = Ok (Exists dv) /\
                      Lfn.ev_end dv = Lfn.ev_end ev /\ has_exact_name ev dst = false /\
-                     e_sfn (node_entry n') = e_sfn (node_entry n))) /\
+                     e_sfn (node_entry n') = e_sfn (node_entry n) /\
+                     (forall l other, dir_entries oem (root_region_slots (parse_geom im) im) = Ok l -> In other l ->
+                                      Lfn.ev_end other <> Lfn.ev_end ev -> matches upper oem dst other = false))) /\
         v_root_issues (abs im') = [] /\ v_labels (abs im') = v_labels (abs im) /\
         v_geom (abs im') = v_geom (abs im) /\ v_status (abs im') = v_status (abs im))).
 Proof. exact vol_rename_decodes. Qed.
@@ -680,6 +686,232 @@ Proof.
   eexists. repeat (split; [reflexivity|]). reflexivity.
 Qed.
 
+(* ================================================================== a CHAIN-BACKED directory inside whole images, without growth
+   (Model/VolChainDir.v, Proofs/VolChainDirProofs.v): a sub-directory of a FAT12/16 volume given by its cluster chain [l].  Its
+   slots are what the independent decoder scans, slots_of (chain_bytes g im l); the operations run the slot layer with kind
+   Chained and NO free cluster, and write the slots back cluster by cluster at g_cluster_off; they answer None when the
+   directory would have to grow (NotEnoughSpace of the slot layer).  vol_create_empty_file_chain = dir.create_file(name),
+   vol_remove_empty_file_chain = dir.remove(name) of a file without clusters, vol_rename_in_chain = dir.rename(src, &dir, dst)
+   of a file.  Premises: a sane FAT12/16 geometry whose cluster size is a multiple of 32; the chain consists of pairwise
+   distinct data clusters; the directory is smaller than 2^32 bytes.
+   NOT modelled (Model/VolChainDir.v): growth, the write-back of the directory's own entry in its parent (modification stamp),
+   the FAT32 root (the definitions cover it, the theorems below are for FAT12/16). *)
+From FatVerif Require Import Model.VolChainDir Proofs.VolChainDirProofs.
+
+(* ---- slots <-> bytes of the clusters: what was written is what the decoder reads back; writing the slots back as they are
+   changes no byte; a byte that differs afterwards lies in cluster number i of the chain, in a slot whose content differs *)
+Theorem C01_volchain_roundtrip : forall g im l ss,
+  fixed_root_geom g /\ g_cluster_size g mod 32 = 0 ->
+  NoDup l /\ Forall (fun c => 2 <= c < g_clusters g + 2) l ->
+  length ss = (cluster_slots g * length l)%nat /\ Forall (fun s => length s = 32%nat) ss ->
+  chain_dir_slots g (put_chain_slots g im l ss) l = ss /\
+  (forall o, img_get (put_chain_slots g im l (chain_dir_slots g im l)) o = img_get im o).
+Proof. intros g im l ss Hg Hl Hs. split; [exact (chain_dir_put g im l ss Hg Hl Hs)|intros o; exact (put_chain_slots_same g im l o Hg Hl)]. Qed.
+Theorem C01_volchain_put_changes : forall g im l ss o,
+  fixed_root_geom g /\ g_cluster_size g mod 32 = 0 ->
+  NoDup l /\ Forall (fun c => 2 <= c < g_clusters g + 2) l ->
+  length ss = (cluster_slots g * length l)%nat /\ Forall (fun s => length s = 32%nat) ss ->
+  img_get (put_chain_slots g im l ss) o <> img_get im o ->
+  exists i s j, (i < length l)%nat /\ (s < cluster_slots g)%nat /\ (j < 32)%nat /\
+    o = g_cluster_off g (nth i l 0) + N.of_nat (32 * s + j) /\
+    nth (cluster_slots g * i + s) ss [] <> nth (cluster_slots g * i + s) (chain_dir_slots g im l) [].
+Proof. exact put_chain_slots_changes. Qed.
+
+(* ---- (a) frame and (b) geometry, for EVERY outcome the model covers: no byte outside the clusters of [l] changes - boot
+   sector, FAT copies, fixed root region, every other cluster; a changed byte lies in cluster (nth i l) of the chain, in a
+   slot that changed, and is classified as data cluster (nth i l) by Spec/Regions.v whatever image / ownership map it is
+   asked with; same geometry, free count, FAT values, lost-cluster findings, same fixed root slots *)
+Definition volchain_frame (im im' : image) (l : list N) : Prop :=
+  let g := parse_geom im in
+  (forall o, (forall c, In c l -> o < g_cluster_off g c \/ g_cluster_off g c + g_cluster_size g <= o) ->
+             img_get im' o = img_get im o) /\
+  (forall o, img_get im' o <> img_get im o ->
+     exists i s j, (i < length l)%nat /\ (s < cluster_slots g)%nat /\ (j < 32)%nat /\
+       o = g_cluster_off g (nth i l 0) + N.of_nat (32 * s + j) /\
+       nth (cluster_slots g * i + s) (chain_dir_slots g im' l) [] <> nth (cluster_slots g * i + s) (chain_dir_slots g im l) [] /\
+       (forall imx m, classify g imx m o = RCluster (nth i l 0) (cluster_owner g imx m (nth i l 0)))) /\
+  parse_geom im' = g /\
+  count_free g im' = count_free g im /\
+  (forall c, in_range g c = true -> fat_val g im' c = fat_val g im c) /\
+  (forall m, Wf.lost_from g im' m 2 (N.to_nat (g_clusters g)) = Wf.lost_from g im m 2 (N.to_nat (g_clusters g))) /\
+  root_region_slots g im' = root_region_slots g im.
+Theorem C01_volchain_frame : forall upper oem im l,
+  fixed_root_geom (parse_geom im) /\ g_cluster_size (parse_geom im) mod 32 = 0 ->
+  NoDup l /\ Forall (fun c => 2 <= c < g_clusters (parse_geom im) + 2) l ->
+  (forall name now r im', vol_create_empty_file_chain upper oem im l name now = Some (r, im') -> volchain_frame im im' l) /\
+  (forall name r im', vol_remove_empty_file_chain upper oem im l name = Some (r, im') -> volchain_frame im im' l) /\
+  (forall src dst r im', vol_rename_in_chain upper oem im l src dst = Some (r, im') -> volchain_frame im im' l).
+Proof.
+  intros upper oem im l Hg Hl. split; [|split].
+  - intros name now r im' H. exact (vol_chain_create_confined upper oem im l name now r im' Hg Hl H).
+  - intros name r im' H. exact (vol_chain_remove_confined upper oem im l name r im' Hg Hl H).
+  - intros src dst r im' H. exact (vol_chain_rename_confined upper oem im l src dst r im' Hg Hl H).
+Qed.
+
+(* ---- why "no free cluster" is the library's behaviour: whenever the model answers (Some), the slot layer run with ANY number
+   of free clusters gives the same outcome and the same slots - no write reached the end of the chain *)
+Theorem C01_volchain_free_irrelevant : forall upper oem im l free,
+  (forall name now r im', vol_create_empty_file_chain upper oem im l name now = Some (r, im') ->
+     exists ss', create_entry upper oem (is_fat32 im) (chain_kind im) free (chain_dir_slots (parse_geom im) im l) name 0 None now false = (r, ss') /\
+                 im' = put_chain_slots (parse_geom im) im l ss') /\
+  (forall src dst r im', vol_rename_in_chain upper oem im l src dst = Some (r, im') ->
+     exists ss', rename_in_dir upper oem (chain_kind im) free (chain_dir_slots (parse_geom im) im l) src dst = (r, ss') /\
+                 im' = put_chain_slots (parse_geom im) im l ss').
+Proof.
+  intros upper oem im l free. split.
+  - intros name now r im' H. exact (vol_chain_create_any_free upper oem im l name now r im' free H).
+  - intros src dst r im' H. exact (vol_chain_rename_any_free upper oem im l src dst r im' free H).
+Qed.
+
+(* ---- (c) the directory's own decoding.  create: the old entries, same fields and order, with ONE new entry inserted (first
+   fit): the name, a fresh legal alias, size 0, no cluster, attributes 0, the stamps of [now]; labels unchanged, no issue; no
+   listed entry matched the name.  Every other outcome the model covers leaves every byte of the device as it was. *)
+Theorem C01_volchain_create_decodes : forall upper oem im l name now range im' es ls,
+  fixed_root_geom (parse_geom im) /\ g_cluster_size (parse_geom im) mod 32 = 0 ->
+  NoDup l /\ Forall (fun c => 2 <= c < g_clusters (parse_geom im) + 2) l ->
+  N.of_nat (cluster_slots (parse_geom im) * length l) < 134217728 ->
+  dir_scan (chain_dir_slots (parse_geom im) im l) 0 [] false = (es, ls, []) -> TimeProofs.datetime_valid now = true ->
+  vol_create_empty_file_chain upper oem im l name now = Some (Ok (Some range), im') ->
+  exists es1 es2 ne st,
+    es = es1 ++ es2 /\ dir_scan (chain_dir_slots (parse_geom im) im' l) 0 [] false = (es1 ++ ne :: es2, ls, []) /\
+    e_lfn ne = (if is_dot_name name then [] else utf16_encode name) /\ e_lfn_ok ne = true /\
+    e_size ne = 0 /\ e_cluster ne = 0 /\ e_attr ne = 0 /\ e_ntres ne = 0 /\
+    stamp_create now = Ok st /\
+    e_ctime_ms ne = create_time_0 st /\ e_ctime ne = create_time_1 st /\ e_cdate ne = create_date st /\
+    e_adate ne = access_date st /\ e_mtime ne = modify_time st /\ e_mdate ne = modify_date st /\
+    e_first_slot ne = fst range /\ e_sfn_slot ne + 1 = snd range /\
+    sfn_legal_b (e_sfn ne) = true /\ ~ In (e_sfn ne) (map e_sfn es) /\
+    (forall lst, dir_entries oem (chain_dir_slots (parse_geom im) im l) = Ok lst ->
+                 forall ev, In ev lst -> matches upper oem name ev = false).
+Proof. exact vol_chain_create_decodes. Qed.
+Theorem C01_volchain_create_failed_unchanged : forall upper oem im l name now r im',
+  fixed_root_geom (parse_geom im) /\ g_cluster_size (parse_geom im) mod 32 = 0 ->
+  NoDup l /\ Forall (fun c => 2 <= c < g_clusters (parse_geom im) + 2) l ->
+  N.of_nat (cluster_slots (parse_geom im) * length l) < 134217728 ->
+  vol_create_empty_file_chain upper oem im l name now = Some (r, im') -> (forall range, r <> Ok (Some range)) ->
+  forall o, img_get im' o = img_get im o.
+Proof. exact vol_chain_create_failed_unchanged. Qed.
+(* remove of a file without clusters: exactly the entry the library's lookup resolved the name to goes *)
+Theorem C01_volchain_remove_decodes : forall upper oem im l name im' es ls,
+  fixed_root_geom (parse_geom im) /\ g_cluster_size (parse_geom im) mod 32 = 0 ->
+  NoDup l /\ Forall (fun c => 2 <= c < g_clusters (parse_geom im) + 2) l ->
+  dir_scan (chain_dir_slots (parse_geom im) im l) 0 [] false = (es, ls, []) ->
+  Forall attrs_sane (chain_dir_slots (parse_geom im) im l) ->
+  vol_remove_empty_file_chain upper oem im l name = Some (Ok tt, im') ->
+  exists ev e es1 es2,
+    chain_lookup upper oem im l name = Ok ev /\ matches upper oem name ev = true /\
+    Lfn.ev_raw_name ev = e_sfn e /\ e_is_dir e = false /\ e_cluster e = 0 /\ e_size e = Lfn.ev_size ev /\
+    es = es1 ++ e :: es2 /\ dir_scan (chain_dir_slots (parse_geom im) im' l) 0 [] false = (es1 ++ es2, ls, []).
+Proof. exact vol_chain_remove_decodes. Qed.
+(* rename of a file inside the directory: nothing (identical spelling), or exactly the source entry goes and exactly one entry
+   comes (first fit) with the new long name, the source's attributes, size and first cluster, under a fresh legal alias, or -
+   for a respelling that no other entry matches (D27) - the source's own short name *)
+Theorem C01_volchain_rename_decodes : forall upper oem im l src dst im' es ls,
+  fixed_root_geom (parse_geom im) /\ g_cluster_size (parse_geom im) mod 32 = 0 ->
+  NoDup l /\ Forall (fun c => 2 <= c < g_clusters (parse_geom im) + 2) l ->
+  N.of_nat (cluster_slots (parse_geom im) * length l) < 134217728 ->
+  dir_scan (chain_dir_slots (parse_geom im) im l) 0 [] false = (es, ls, []) ->
+  Forall attrs_sane (chain_dir_slots (parse_geom im) im l) -> Forall DirSlotsProofs.bytes_ok (chain_dir_slots (parse_geom im) im l) ->
+  vol_rename_in_chain upper oem im l src dst = Some (Ok tt, im') ->
+  exists ev e,
+    chain_lookup upper oem im l src = Ok ev /\ matches upper oem src ev = true /\ Lfn.ev_is_dir ev = false /\ In e es /\
+    Lfn.ev_raw_name ev = e_sfn e /\
+    ((exists dv, check_for_existence upper oem (chain_dir_slots (parse_geom im) im l) dst None = Ok (Exists dv) /\
+                 Lfn.ev_end dv = Lfn.ev_end ev /\ has_exact_name ev dst = true /\ forall o, img_get im' o = img_get im o) \/
+     (exists x y c d ne,
+        es = x ++ e :: y /\ x ++ y = c ++ d /\
+        dir_scan (chain_dir_slots (parse_geom im) im' l) 0 [] false = (c ++ ne :: d, ls, []) /\
+        e_lfn ne = (if is_dot_name dst then [] else utf16_encode dst) /\ e_lfn_ok ne = true /\
+        e_attr ne = e_attr e mod 64 /\ e_size ne = e_size e /\ e_cluster ne = e_cluster e /\
+        ((exists a, check_for_existence upper oem (chain_dir_slots (parse_geom im) im l) dst None = Ok (Fresh a) /\
+                    e_sfn ne = a /\ sfn_legal_b a = true /\ ~ In a (map e_sfn es)) \/
+         (exists dv, check_for_existence upper oem (chain_dir_slots (parse_geom im) im l) dst None = Ok (Exists dv) /\
+                     Lfn.ev_end dv = Lfn.ev_end ev /\ has_exact_name ev dst = false /\ e_sfn ne = e_sfn e /\
+                     (forall lst other, dir_entries oem (chain_dir_slots (parse_geom im) im l) = Ok lst -> In other lst ->
+                                        Lfn.ev_end other <> Lfn.ev_end ev -> matches upper oem dst other = false))))).
+Proof. exact vol_chain_rename_decodes. Qed.
+
+(* ---- the rest of the tree.  An entry whose decoded node - chain, content, whole sub-tree - refers to no cluster of [l] is
+   decoded to the SAME node on any image that agrees with [im] below the data area and in every data cluster outside [l]
+   (which is what volchain_frame gives).  [d]: remaining decoding depth. *)
+Theorem C01_volchain_other_entries_unchanged : forall g im im' l d e,
+  fixed_root_geom g ->
+  (forall o, o < g_first_data g * g_bps g -> img_get im' o = img_get im o) ->
+  (forall c, 2 <= c -> ~ In c l -> cluster_bytes g im' c = cluster_bytes g im c) ->
+  (forall c, In c (concat (Wf.node_chains (node_of g im d e))) -> ~ In c l) ->
+  node_of g im' d e = node_of g im d e.
+Proof. intros g im im' l d e Hg Hb Hc. exact (proj2 (node_of_avoid g im im' l Hg Hb Hc d) e). Qed.
+
+(* ---- (d) a sub-directory of the fixed root inside the whole decoded volume (Spec/Abs.abs).  The root holds a directory node
+   with chain [l] whose own slots decode without issue; no other root node and no child refers to a cluster of [l] (what the
+   no-cross-link clause of Spec/Wf.v gives).  A successful create_file in that directory: the decoded volume is the old one
+   with ONE node - a plain empty file carrying the name - inserted among the children of that directory; EVERY other node of
+   the tree is exactly as before; root issues, labels, geometry, status byte as before; frame as above.
+   PARTIAL: depth 1 (a directory referenced from the root), FAT12/16, without the parent-entry write-back. *)
+Theorem C01_volchain_create_in_root_decodes_partial : forall upper oem im l name now range im' ra ed children labels rb,
+  fixed_root_geom (parse_geom im) /\ g_cluster_size (parse_geom im) mod 32 = 0 ->
+  NoDup l /\ Forall (fun c => 2 <= c < g_clusters (parse_geom im) + 2) l ->
+  N.of_nat (cluster_slots (parse_geom im) * length l) < 134217728 ->
+  TimeProofs.datetime_valid now = true ->
+  v_root (abs im) = ra ++ NDir ed (Some l) children [] labels :: rb ->
+  Forall (fun n => forall c, In c (concat (Wf.node_chains n)) -> ~ In c l) (ra ++ rb) ->
+  Forall (fun n => forall c, In c (concat (Wf.node_chains n)) -> ~ In c l) children ->
+  vol_create_empty_file_chain upper oem im l name now = Some (Ok (Some range), im') ->
+  exists c1 c2 ne st,
+    children = c1 ++ c2 /\
+    v_root (abs im') = ra ++ NDir ed (Some l) (c1 ++ NFile ne None [] :: c2) [] labels :: rb /\
+    e_lfn ne = (if is_dot_name name then [] else utf16_encode name) /\ e_lfn_ok ne = true /\
+    e_size ne = 0 /\ e_cluster ne = 0 /\ e_attr ne = 0 /\
+    stamp_create now = Ok st /\
+    e_ctime_ms ne = create_time_0 st /\ e_ctime ne = create_time_1 st /\ e_cdate ne = create_date st /\
+    e_adate ne = access_date st /\ e_mtime ne = modify_time st /\ e_mdate ne = modify_date st /\
+    e_first_slot ne = fst range /\ e_sfn_slot ne + 1 = snd range /\
+    sfn_legal_b (e_sfn ne) = true /\ ~ In (e_sfn ne) (map e_sfn (map node_entry children)) /\
+    v_root_issues (abs im') = v_root_issues (abs im) /\ v_labels (abs im') = v_labels (abs im) /\
+    v_geom (abs im') = v_geom (abs im) /\ v_status (abs im') = v_status (abs im) /\
+    volchain_frame im im' l.
+Proof. exact vol_chain_create_in_root_decodes_partial. Qed.
+
+(* ---- the example volume of Proofs/VolChainDirProofs.v: the 64-sector FAT12 volume with a directory "D" (root slot 1, cluster 2,
+   holding "." and ".."); the premises hold and the volume has no issue.  "hi.t" is created in D (slots 2-3 of cluster 2),
+   then "HI.T" exists (Ok None), "hi.t" is renamed to "Hi.T" (a respelling: rewritten into slots 4-5, slots 2-3 deleted) and
+   removed again; after every step the whole volume decodes to D with exactly these children and has no issue; the root
+   region and the FAT are untouched.  A name of 200 characters (17 slots) does not fit into the 16-slot cluster: the directory
+   would have to grow - outside this model (None). *)
+Example C01_volchain_example :
+  let U := upper_ascii in let O := oem_decode_lossy in
+  let kids im := map (fun n => match n with
+                               | NDir _ ch cs iss _ => (ch, map (fun c => e_lfn (node_entry c)) cs, iss)
+                               | _ => (None, [], [])
+                               end) (v_root (abs im)) in
+  ((fixed_root_geom (parse_geom ex_sub_im) /\ g_cluster_size (parse_geom ex_sub_im) mod 32 = 0) /\
+   (NoDup [2] /\ Forall (fun c => 2 <= c < g_clusters (parse_geom ex_sub_im) + 2) [2]) /\
+   N.of_nat (cluster_slots (parse_geom ex_sub_im) * length [2]) < 134217728 /\
+   Wf.wf_issues (fun x => x) ex_sub_im = [] /\
+   exists ed d1 d2, v_root (abs ex_sub_im) = [] ++ NDir ed (Some [2]) [NDot d1; NDot d2] [] [] :: [] /\
+     Forall (fun n => forall c, In c (concat (Wf.node_chains n)) -> ~ In c [2]) ([] ++ []) /\
+     Forall (fun n => forall c, In c (concat (Wf.node_chains n)) -> ~ In c [2]) [NDot d1; NDot d2]) /\
+  kids ex_sub_im = [(Some [2], [[]; []], [])] /\
+  vol_create_empty_file_chain U O ex_sub_im [2] (repeat_N 120 200) ex_vol_now = None /\
+  match vol_create_empty_file_chain U O ex_sub_im [2] [104; 105; 46; 116] ex_vol_now with
+  | Some (r1, im1) =>
+    r1 = Ok (Some (2, 4)) /\ kids im1 = [(Some [2], [[]; []; [104; 105; 46; 116]], [])] /\ Wf.wf_issues (fun x => x) im1 = [] /\
+    img_read im1 512 1536 = img_read ex_sub_im 512 1536 /\
+    option_map fst (vol_create_empty_file_chain U O im1 [2] [72; 73; 46; 84] ex_vol_now) = Some (Ok None) /\
+    match vol_rename_in_chain U O im1 [2] [104; 105; 46; 116] [72; 105; 46; 84] with
+    | Some (r2, im2) =>
+      r2 = Ok tt /\ kids im2 = [(Some [2], [[]; []; [72; 105; 46; 84]], [])] /\ Wf.wf_issues (fun x => x) im2 = [] /\
+      map (fun k => img_get im2 (2048 + 32 * k)) [0; 1; 2; 3; 4; 5; 6] = [46; 46; 229; 229; 65; 72; 0] /\
+      match vol_remove_empty_file_chain U O im2 [2] [104; 73; 46; 116] with
+      | Some (r3, im3) => r3 = Ok tt /\ kids im3 = [(Some [2], [[]; []], [])] /\ Wf.wf_issues (fun x => x) im3 = []
+      | None => False
+      end
+    | None => False
+    end
+  | None => False
+  end.
+Proof. cbv zeta. split; [exact ex_sub_premises|]. vm_compute. repeat split. Qed.
+
 Print Assumptions C01_image_write_frame.
 Print Assumptions C01_find_free_entries_spec.
 Print Assumptions C01_failed_write_unchanged_partial.
@@ -712,3 +944,13 @@ Print Assumptions C01_vol_format_create_decodes.
 Print Assumptions C01_vol_format_create_succeeds.
 Print Assumptions C01_vol_format_create_many_decodes.
 Print Assumptions C01_vol_create_many_decodes.
+Print Assumptions C01_volchain_roundtrip.
+Print Assumptions C01_volchain_put_changes.
+Print Assumptions C01_volchain_frame.
+Print Assumptions C01_volchain_free_irrelevant.
+Print Assumptions C01_volchain_create_decodes.
+Print Assumptions C01_volchain_create_failed_unchanged.
+Print Assumptions C01_volchain_remove_decodes.
+Print Assumptions C01_volchain_rename_decodes.
+Print Assumptions C01_volchain_other_entries_unchanged.
+Print Assumptions C01_volchain_create_in_root_decodes_partial.
